@@ -4,6 +4,7 @@ PyTree.tla    nested dict / tuple / list trees of integer and Gaussian-integer a
               tree and on the flat array; TLC: the two agree on every instance (ElementwiseLaw, ReductionLaw)
 AxisMap.tla   sequential maps: result of mapping a function over chosen input axes into chosen output axes, as index relations
 spec -> code  every instance is replayed into nifty.re.Vector / nifty.re.tree_math (exact integers) and into smap / lmap (and jax.vmap)"""
+import importlib
 import json
 
 import numpy as np
@@ -38,7 +39,7 @@ def build(t, cplx, jnp):
 
 def flat(jax, x):
     lv = jax.tree_util.tree_leaves(x)
-    return np.concatenate([np.atleast_1d(np.asarray(l)) for l in lv]) if lv else np.zeros(0)
+    return np.concatenate([np.atleast_1d(np.asarray(l)).ravel() for l in lv]) if lv else np.zeros(0)
 
 
 def same_structure(jax, a, b):
@@ -54,7 +55,7 @@ def check_tree_instance(jenv, inst):
     c = inst["c"]
 
     def ex(name):
-        return np.array([val(v, cplx) for v in inst[name]]) if name not in ("lt", "le", "eq", "ne") else np.array(inst[name]).astype(bool)
+        return np.array([val(v, cplx) for v in inst[name]], dtype=complex if cplx else float) if name not in ("lt", "le", "eq", "ne") else np.array(inst[name]).astype(bool)
 
     def cmp(name, got, structure_of=v1):
         try:
@@ -122,6 +123,66 @@ def check_tree_instance(jenv, inst):
         scal("max", lambda: tm.max(v1), inst["max"])
         scal("min", lambda: tm.min(v1), inst["min"])
         scal("Vector.max", lambda: v1.max(), inst["max"])
+    if not cplx:
+        scal("Vector.min", lambda: v1.min(), inst["min"])
+        cmp("floordiv", lambda: divmod(v1, v2nz)[0])
+        cmp("mod", lambda: divmod(v1, v2nz)[1])
+        cmp("fdivc", lambda: divmod(v1, c if c else 1)[0])
+    scal("Vector.size", lambda: v1.size, inst["size"])
+    scal("Vector.shape", lambda: v1.shape[0], inst["size"])
+    scal("tree_math.shape", lambda: tm.shape(v1)[0], inst["size"])
+    cmp("flat1", lambda: v1.copy())
+    cmp("flat1", lambda: v1.ravel())
+    # forests (tuples of trees of one structure)
+    fm = importlib.import_module("nifty.re.tree_math.forest_math")
+    t3 = build(inst["t3"], cplx, jnp)
+    v3 = jft.Vector(t3)
+    n1 = inst["size"]
+
+    def cmpv(name, got, exp, structure_of=None, tol=0.):
+        try:
+            g = got()
+            gf = flat(jax, g)
+        except Exception as e:
+            out.append("%s raised %s: %s" % (name, type(e).__name__, str(e)[:100]))
+            return
+        if gf.shape != exp.shape or not np.allclose(gf, exp, rtol=tol, atol=tol):
+            out.append("%s: %s, the flat-array result is %s" % (name, np.round(gf, 9).tolist(), np.round(exp, 9).tolist()))
+        elif structure_of is not None and not same_structure(jax, g, structure_of):
+            out.append("%s: the result has another tree structure than the members of the forest" % name)
+    fsum = ex("fsum")
+    cmpv("forest mean (Vectors)", lambda: fm.mean((v1, v2, v3)), fsum / 3., v1, 1e-13)
+    cmpv("forest mean (plain trees)", lambda: fm.mean((t1, t2, t3)), fsum / 3., t1, 1e-13)
+    cmpv("stack", lambda: fm.stack((t1, t2, t3)), np.concatenate([np.stack([np.atleast_1d(np.asarray(a)), np.atleast_1d(np.asarray(b)), np.atleast_1d(np.asarray(c_))]).ravel()
+                                                                   for a, b, c_ in zip(jax.tree_util.tree_leaves(t1), jax.tree_util.tree_leaves(t2), jax.tree_util.tree_leaves(t3))]), t1)
+    try:
+        back = fm.unstack(fm.stack((t1, t2, t3)))
+        if len(back) != 3 or any(not np.array_equal(flat(jax, b_), flat(jax, t_)) or not same_structure(jax, b_, t_) for b_, t_ in zip(back, (t1, t2, t3))):
+            out.append("unstack(stack(forest)) is not the forest")
+        mapped = fm.map_forest(lambda t: jax.tree_util.tree_map(lambda a: 2 * a + 1, t))((t1, t2, t3))
+        if len(mapped) != 3 or any(not np.array_equal(flat(jax, m_), 2 * flat(jax, t_) + 1) for m_, t_ in zip(mapped, (t1, t2, t3))):
+            out.append("map_forest(f)(forest) is not (f(t) for t in forest)")
+        for mp in ("vmap", "lmap", "smap"):
+            mm = fm.map_forest_mean(lambda t: jax.tree_util.tree_map(lambda a: 2 * a + 1, t), map=mp)((t1, t2, t3))
+            if not np.allclose(flat(jax, mm), 2 * fsum / 3. + 1, rtol=1e-13, atol=1e-13) or not same_structure(jax, mm, t1):
+                out.append("map_forest_mean(f, map=%r): %s, the mean of f over the forest is %s" % (mp, flat(jax, mm).tolist(), (2 * fsum / 3. + 1).tolist()))
+    except Exception as e:
+        out.append("forest helpers raised %s: %s" % (type(e).__name__, str(e)[:120]))
+    if not cplx:
+        var = ex("fvarnum") / 6.
+        for label, forest, so in (("Vectors", (v1, v2, v3), v1), ("plain trees", (t1, t2, t3), None)):
+            try:
+                m, sd = fm.mean_and_std(tuple(jax.tree_util.tree_map(lambda a: a.astype(float), f_) for f_ in forest))
+                if not np.allclose(flat(jax, m), fsum / 3., rtol=1e-13, atol=1e-13) or not np.allclose(flat(jax, sd) ** 2, var, rtol=1e-10, atol=1e-12):
+                    out.append("mean_and_std (%s): mean %s std^2 %s, the unbiased statistics over the forest are %s and %s" % (label, flat(jax, m).tolist(), (flat(jax, sd) ** 2).tolist(), (fsum / 3.).tolist(), var.tolist()))
+                m, sd = fm.mean_and_std(tuple(jax.tree_util.tree_map(lambda a: a.astype(float), f_) for f_ in forest), correct_bias=False)
+                if not np.allclose(flat(jax, sd) ** 2, var * 2. / 3., rtol=1e-10, atol=1e-12):
+                    out.append("mean_and_std (%s, correct_bias=False): std^2 %s, the biased variance is %s" % (label, (flat(jax, sd) ** 2).tolist(), (var * 2. / 3.).tolist()))
+            except Exception as e:
+                out.append("mean_and_std (%s) raised %s: %s" % (label, type(e).__name__, str(e)[:120]))
+    u1, u2 = build(inst["u1"], cplx, jnp), build(inst["u2"], cplx, jnp)
+    cmpv("unite", lambda: fm.unite(u1, u2), ex("united"))
+    cmpv("unite (Vectors)", lambda: fm.unite(jft.Vector(u1), jft.Vector(u2)), ex("united"))
     # structure helpers
     try:
         z = tm.zeros_like(v1)
@@ -140,7 +201,7 @@ def run(ctx):
     jenv = _jenv()
     insts = []
     for mode in ("int", "cplx"):
-        r = ctx.tlc("PyTree", 'CONSTANTS Mode = "%s"\nSPECIFICATION Spec\nINVARIANT ElementwiseLaw\nINVARIANT ReductionLaw\nINVARIANT Emit\n' % mode, label="trees, " + mode, workers=1, deadlock=False, timeout=1500)
+        r = ctx.tlc("PyTree", 'CONSTANTS Mode = "%s"\nSPECIFICATION Spec\nINVARIANT ElementwiseLaw\nINVARIANT ReductionLaw\nINVARIANT ForestLaw\nINVARIANT UniteLaw\nINVARIANT Emit\n' % mode, label="trees, " + mode, workers=1, deadlock=False, timeout=1500)
         insts += r.emitted
     if len(insts) < 500:
         raise tlcmod.MachineryError("too few instances: %d" % len(insts))
